@@ -306,5 +306,44 @@ def translate(repo):
     return "\n".join(lines)
 
 
-if __name__ == "__main__":
+if __name__ == "__main__" and "--selftest" not in sys.argv:
     print(translate(sys.argv[1] if len(sys.argv) > 1 else "/repo"))
+
+
+def selftest(repo="/repo"):
+    """Perturb the source in memory: the generated programs must change, or the translator must refuse;
+    renaming a local must change nothing."""
+    import shutil
+    import tempfile
+    good = translate(repo)
+    src = open(os.path.join(repo, "boltons", "cacheutils.py")).read()
+    results = []
+    for name, old, new, expect in [
+            ("setdefault without the soft-miss bump",
+             "            except KeyError:\n                self.soft_miss_count += 1\n                self[key] = default",
+             "            except KeyError:\n                self[key] = default", "differs"),
+            ("update without the kwargs loop", "            for k in F:\n                setitem(k, F[k])\n", "", "differs"),
+            ("capacity test <= for <", "                if len(self) < self.max_size:",
+             "                if len(self) <= self.max_size:", "refused"),
+            ("renamed local in __setitem__", "evicted", "gone", "same"),
+            ("constructor checks swapped", "        if max_size <= 0:\n            raise ValueError('expected max_size > 0, not %r' % max_size)\n",
+             "", "differs")]:
+        assert old in src, name
+        d = tempfile.mkdtemp(prefix="c02_trm_")
+        try:
+            os.makedirs(os.path.join(d, "boltons"))
+            open(os.path.join(d, "boltons", "cacheutils.py"), "w").write(src.replace(old, new))
+            try:
+                got = "same" if translate(d) == good else "differs"
+            except Unsupported:
+                got = "refused"
+        finally:
+            shutil.rmtree(d, ignore_errors=True)
+        results.append((name, expect, got))
+        assert got == expect, (name, expect, got)
+    return results
+
+
+if __name__ == "__main__" and "--selftest" in sys.argv:
+    for r in selftest():
+        print("selftest %-40s expected %-8s got %s" % r)
